@@ -25,14 +25,17 @@ pub fn build_pred(spec: &str) -> (Option<AbsModel>, Result<Predictor, String>) {
         let model = m.load().map_err(|e| format!("read:{e}"))?;
         let mut p = Predictor::new(model, pt).map_err(|_| "err:invalid_model".to_string())?;
         if ser {
-            let bytes = p.serialize_to_vec().map_err(|_| "err:serialize".to_string())?;
-            let mut bytes = bytes;
-            bytes.extend_from_slice(&trail);
-            let (q, rest) = unsafe { Predictor::deserialize_from_slice_unchecked(&bytes) }.map_err(|_| "err:deserialize".to_string())?;
-            if rest != &trail[..] {
-                return Err("err:rest".to_string());
+            // a deserialised predictor is a predictor: every other case serialises and deserialises it a second time
+            for _round in 0..(1 + trail.len() % 2) {
+                let bytes = p.serialize_to_vec().map_err(|_| "err:serialize".to_string())?;
+                let mut bytes = bytes;
+                bytes.extend_from_slice(&trail);
+                let (q, rest) = unsafe { Predictor::deserialize_from_slice_unchecked(&bytes) }.map_err(|_| "err:deserialize".to_string())?;
+                if rest != &trail[..] {
+                    return Err("err:rest".to_string());
+                }
+                p = q;
             }
-            p = q;
         }
         // only switched on explicitly: the default (off) must be what the constructor and the deserialiser leave
         if st {
